@@ -15,6 +15,8 @@ import (
 	"strings"
 	"testing"
 	"time"
+
+	"github.com/spq/pkappa2/internal/index"
 )
 
 type vStep struct {
@@ -201,6 +203,27 @@ func (s *vScenario) exec(st vStep) (res, msg string, fatal error) {
 			}
 			return "", "", err
 		}
+		return "ok", "", nil
+	case "MergeFail": // environment fault: the output file of the merge cannot be created (a directory is in its place)
+		if s.ctl.phaseOf("merge") != "start" {
+			return "skip", "no merge job at start", nil
+		}
+		in := s.ctl.inst("merge")
+		idxs := in.start[1].([]*index.Reader)
+		base := strings.TrimSuffix(filepath.Base(idxs[len(idxs)-1].Filename()), ".idx")
+		block := filepath.Join(s.dirs["index"], base+".m0.idx")
+		if err := os.Mkdir(block, 0o755); err != nil {
+			return "", "", err
+		}
+		err := s.ctl.compute("merge", 30*time.Second)
+		os.Remove(block)
+		if err != nil {
+			return "", "", err
+		}
+		if e, _ := in.result[1].(error); e == nil {
+			return "", "", fmt.Errorf("the merge did not fail although its output name was blocked")
+		}
+		in.fault = true
 		return "ok", "", nil
 	case "ImportDone", "TagDone", "MergeDone", "ConvDone":
 		kind := strings.ToLower(strings.TrimSuffix(st.A, "Done"))
